@@ -89,3 +89,52 @@ impl Listener {
 impl Keymaker {
     #[verifier::external_body] pub fn call(&self, item: &Incoming) -> (k: u64) { unimplemented!() }
 }
+
+// ---- the channel wrapped by a TrackedChannel, as seen by its forwarders (U8-style model) ----
+// Each operation of the inner channel is a (deterministic but unknown) function of its state: what it
+// answers and the state it is in afterwards. A forwarder is faithful iff it returns that answer and leaves
+// the inner channel in that state -- i.e. it performed exactly that one operation on it.
+#[verifier::external_body] pub struct ChanItem { _p: u8 }
+#[verifier::external_body] pub struct ChanSinkItem { _p: u8 }
+#[verifier::external_body] pub struct ChanErr { _p: u8 }
+impl Incoming {
+    pub uninterp spec fn next_answer(&self) -> Poll<Option<ChanItem>>;
+    pub uninterp spec fn after_next(&self) -> Incoming;
+    pub uninterp spec fn ready_answer(&self) -> Poll<Result<(), ChanErr>>;
+    pub uninterp spec fn after_ready(&self) -> Incoming;
+    pub uninterp spec fn send_answer(&self, item: ChanSinkItem) -> Result<(), ChanErr>;
+    pub uninterp spec fn after_send(&self, item: ChanSinkItem) -> Incoming;
+    pub uninterp spec fn flush_answer(&self) -> Poll<Result<(), ChanErr>>;
+    pub uninterp spec fn after_flush(&self) -> Incoming;
+    pub uninterp spec fn close_answer(&self) -> Poll<Result<(), ChanErr>>;
+    pub uninterp spec fn after_close(&self) -> Incoming;
+    pub uninterp spec fn in_flight(&self) -> usize;
+    #[verifier::external_body]
+    pub fn poll_next(&mut self, cx: &mut TaskCx) -> (r: Poll<Option<ChanItem>>)
+        ensures r == old(self).next_answer(), *final(self) == old(self).after_next() { unimplemented!() }
+    #[verifier::external_body]
+    pub fn poll_ready(&mut self, cx: &mut TaskCx) -> (r: Poll<Result<(), ChanErr>>)
+        ensures r == old(self).ready_answer(), *final(self) == old(self).after_ready() { unimplemented!() }
+    #[verifier::external_body]
+    pub fn start_send(&mut self, item: ChanSinkItem) -> (r: Result<(), ChanErr>)
+        ensures r == old(self).send_answer(item), *final(self) == old(self).after_send(item) { unimplemented!() }
+    #[verifier::external_body]
+    pub fn poll_flush(&mut self, cx: &mut TaskCx) -> (r: Poll<Result<(), ChanErr>>)
+        ensures r == old(self).flush_answer(), *final(self) == old(self).after_flush() { unimplemented!() }
+    #[verifier::external_body]
+    pub fn poll_close(&mut self, cx: &mut TaskCx) -> (r: Poll<Result<(), ChanErr>>)
+        ensures r == old(self).close_answer(), *final(self) == old(self).after_close() { unimplemented!() }
+    #[verifier::external_body]
+    pub fn in_flight_requests(&self) -> (n: usize)
+        ensures n == self.in_flight() { unimplemented!() }
+}
+
+// ---- what MaxChannelsPerKey::new builds the filter from ----
+/// `mpsc::unbounded_channel()` for the close notifications: the two halves of one fresh queue
+#[verifier::external_body]
+pub fn dropped_keys_channel() -> (r: (DroppedKeysTx, DroppedKeysRx)) { unimplemented!() }
+/// the listener before `fuse()` (opaque stream of incoming channels)
+#[verifier::external_body] pub struct RawListener { _p: u8 }
+/// `listener.fuse()` (futures StreamExt::fuse): not done yet... unless the stream says so later
+#[verifier::external_body]
+pub fn fuse_listener(l: RawListener) -> (r: Listener) { unimplemented!() }
